@@ -116,6 +116,10 @@ type gauge struct {
 	updated     uint64
 	curr        uint64
 	cachedGauge CachedGauge
+	// reportMu serialises concurrent reports of this gauge, so that a value
+	// loaded by one report cannot be delivered after a newer value that was
+	// loaded and delivered by another.
+	reportMu sync.Mutex
 }
 
 func newGauge(cachedGauge CachedGauge) *gauge {
@@ -132,12 +136,16 @@ func (g *gauge) value() float64 {
 }
 
 func (g *gauge) report(name string, tags map[string]string, r StatsReporter) {
+	g.reportMu.Lock()
+	defer g.reportMu.Unlock()
 	if atomic.SwapUint64(&g.updated, 0) == 1 {
 		r.ReportGauge(name, tags, g.value())
 	}
 }
 
 func (g *gauge) cachedReport() {
+	g.reportMu.Lock()
+	defer g.reportMu.Unlock()
 	if atomic.SwapUint64(&g.updated, 0) == 1 {
 		g.cachedGauge.ReportGauge(g.value())
 	}
